@@ -201,6 +201,57 @@ def run(ctx):
                 else:
                     r.fail(cal, cs.node, norm(cs.node), "%s is relied upon to advance but is called where the scanner may already be at the end" % m.short)
 
+    # ---------------------------------------------------------------- R4
+    r = ctx.rule("C08-R4", "SIBLING", "the scanner's literal tables agree: the characters an escape removes the "
+                 "backslash from are the quote delimiters; every whitespace test is the same predicate", reference=2)
+    def char_sets(m):
+        out = []
+        for n in walk_no_nested(m.node):
+            if isinstance(n, ast.Compare) and len(n.ops) == 1 and isinstance(n.ops[0], ast.In) and isinstance(n.comparators[0], (ast.List, ast.Tuple, ast.Set)):
+                if is_self_attr(n.left) and n.left.attr in optional:
+                    out.append((n, frozenset(x.value for x in n.comparators[0].elts if isinstance(x, ast.Constant))))
+        return out
+    delim = set()
+    for name in ("_parse_token", "_parse_quoted_string"):
+        m = methods.get(name)
+        if m is None:
+            continue
+        for n, cs_ in char_sets(m):
+            delim |= cs_
+        for n in walk_no_nested(m.node):
+            if isinstance(n, ast.Compare) and len(n.ops) == 1 and isinstance(n.ops[0], ast.Eq) and is_self_attr(n.left) and isinstance(n.comparators[0], ast.Constant):
+                v = n.comparators[0].value
+                # a quote compared for recursion into a nested quoted string
+                par_if = getattr(n, "_parent", None)
+                if isinstance(v, str) and v in ("'", '"'):
+                    delim.add(v)
+    esc = methods.get("_parse_escape_sequence")
+    if esc is not None and delim:
+        for n, cs_ in char_sets(esc):
+            if cs_ == frozenset(delim):
+                r.ok("%s unescapes exactly the delimiters %s" % (esc.short, sorted(delim)))
+            else:
+                r.fail(esc, n, norm(n), "an escape sequence drops the backslash before %s but the quote delimiters are %s: text such as a doubled backslash "
+                       "does not survive quoting and tokenising" % (sorted(cs_), sorted(delim)))
+    ws = []
+    for m in methods.values():
+        for n in walk_no_nested(m.node):
+            if isinstance(n, ast.Call) and isinstance(n.func, ast.Attribute) and n.func.attr == "isspace" and is_self_attr(n.func.value):
+                ws.append((m, n, "isspace()"))
+            if isinstance(n, ast.Compare) and len(n.ops) == 1 and isinstance(n.ops[0], (ast.Eq, ast.In)) and is_self_attr(n.left) and n.left.attr == valid_attr:
+                lits = [x.value for x in walk_no_nested(n.comparators[0]) if isinstance(x, ast.Constant) and isinstance(x.value, str)]
+                if lits and all(x.isspace() for x in lits):
+                    ws.append((m, n, "== %r" % lits))
+    kinds = {k for _, _, k in ws}
+    if len(kinds) <= 1:
+        if ws:
+            r.ok("all %d whitespace tests use %s" % (len(ws), next(iter(kinds))))
+    else:
+        odd = [x for x in ws if x[2] != "isspace()"] or ws
+        m, n, k = odd[0]
+        r.fail(m, n, norm(n), "%s tests whitespace with %s while other scanner loops use %s: a tab or newline separates tokens in one place and not in the other "
+               "(empty or merged tokens)" % (m.short, k, sorted(kinds - {k})))
+
     # ---------------------------------------------------------------- R3
     r = ctx.rule("C08-R3", "SIBLING", "every RawArgs implementation derives its option tokens as the prefix of its "
                  "tokens before the first '--' and answers has_option_token / has_token from those lists", reference=6)
